@@ -434,7 +434,17 @@ def assume(t, decide, _memo=None):
             r = ("bool", bool(d))
             _memo[k] = (t, r)
             return r
-    parts = tuple(assume(x, decide, _memo) for x in t)
+    if h == "phi":
+        d = decide(t[1])            # a condition of any shape (e.g. a bare call) may be decided directly
+        if d is not None:
+            r = assume(t[2] if d else t[3], decide, _memo)
+            _memo[k] = (t, r)
+            return r
+    if h in ("and", "or", "not"):
+        # operands of a connective are conditions whatever their shape (e.g. a bare call)
+        parts = (h,) + tuple(("bool", bool(decide(x))) if decide(x) is not None else assume(x, decide, _memo) for x in t[1:])
+    else:
+        parts = tuple(assume(x, decide, _memo) for x in t)
     if h == "phi":
         r = T.phi(parts[1], parts[2], parts[3])
     elif h == "not":
@@ -551,3 +561,39 @@ def lift_phi(t):
                 return T.phi(a[1], lift_phi(mk(*(args[:i] + [a[2]] + args[i + 1:]))), lift_phi(mk(*(args[:i] + [a[3]] + args[i + 1:]))))
         return (T.add if h == "add" else T.mul)(*args)
     return t
+
+
+def formula_dnf(f, limit=256):
+    """disjunctive normal form of a condition term whose connectives are and/or/not/phi/bool; literals are
+    (atom, polarity) pairs; contradictory conjunctions are dropped.  Returns a list of frozensets, or None if too large."""
+    def pos(x, pol):
+        h = x[0]
+        if h == "bool":
+            return [frozenset()] if x[1] == pol else []
+        if h == "not":
+            return pos(x[1], not pol)
+        if h in ("and", "or"):
+            conj = (h == "and") == pol
+            parts = [pos(y, pol) for y in x[1:]]
+            if conj:
+                acc = [frozenset()]
+                for p in parts:
+                    acc = [a | b for a in acc for b in p]
+                    acc = [a for a in acc if not any((t, not q) in a for t, q in a)]
+                    if len(acc) > limit:
+                        raise OverflowError
+                return acc
+            out = []
+            for p in parts:
+                out.extend(p)
+            return out
+        if h == "phi":
+            # phi(c, a, b) as a condition: (c and a) or (not c and b)
+            g = ("or", ("and", x[1], x[2]), ("and", ("not", x[1]), x[3]))
+            return pos(g, pol)
+        return [frozenset([(x, pol)])]
+    try:
+        out = pos(f, True)
+    except OverflowError:
+        return None
+    return [a for a in out if not any((t, not q) in a for t, q in a)]
